@@ -1,10 +1,12 @@
 import RQ.Spec.Push
+import RQ.Props.C06
 /-!
 # C10 — `--dry-run` writes nothing and predicts the real outcome
 
 Model level: with `dryRun` the driver performs no file-system operation at all (the world, including its
 operation trace, is returned unchanged), and the exit status is computed by the same application loop
-as in a real run.
+as in a real run.  `C10_parallel` carries both halves to the parallel driver (`parApplyPatches`, every pair of
+thread schedules), via `RQ.Par.C06_parallel_eq_sequential_tree`.
 -/
 namespace RQ.Push
 open RQ
@@ -136,7 +138,174 @@ theorem applyLoop_dry_same_final (fs : FS) (cfg : Cfg) :
               simp only [Bool.false_eq_true, if_false]
               exact ih (index + 1) st'
 
+/-! ### the parallel driver -/
+
+/-- the abstract specification of the application phase does not look at `dryRun` except for the reject
+files it returns -/
+theorem applyFPs_dryRun (fs : FS) (cfg : Cfg) (b : Bool) (entry : Series.Entry) :
+    ∀ (fps : List Parse.PFilePatch) (t : Abs.ATree) (ok : Bool) (rejs : List (Bytes × Bytes)),
+      Abs.applyFPs fs { cfg with dryRun := b } entry fps t ok rejs = Abs.applyFPs fs cfg entry fps t ok rejs := by
+  intro fps
+  induction fps with
+  | nil => intro t ok rejs; rfl
+  | cons fp fps ih =>
+    intro t ok rejs
+    simp only [Abs.applyFPs]
+    have : Abs.applyFP t fs { cfg with dryRun := b } entry fp = Abs.applyFP t fs cfg entry fp := rfl
+    rw [this]
+    cases Abs.applyFP t fs cfg entry fp with
+    | error _ => rfl
+    | ok r => exact ih _ _ _
+
+theorem applyRange_dryRun (fs : FS) (cfg : Cfg) (b : Bool) :
+    ∀ (range : List Series.Entry) (k : Nat) (t : Abs.ATree),
+      (match Abs.applyRange fs cfg range k t, Abs.applyRange fs { cfg with dryRun := b } range k t with
+       | .ok (t1, k1, _), .ok (t2, k2, _) => t1 = t2 ∧ k1 = k2
+       | .error e1, .error e2 => e1 = e2
+       | _, _ => False) := by
+  intro range
+  induction range with
+  | nil => intro k t; simp [Abs.applyRange]
+  | cons entry rest ih =>
+    intro k t
+    simp only [Abs.applyRange]
+    have hk : patchKey { cfg with dryRun := b } entry.name = patchKey cfg entry.name := rfl
+    rw [hk]
+    cases patchKey cfg entry.name with
+    | none => simp
+    | some pk =>
+      simp only
+      cases fs.readFile pk with
+      | error _ => simp
+      | ok bm =>
+        obtain ⟨bytes, m⟩ := bm
+        simp only
+        cases Parse.parsePatch bytes entry.strip false with
+        | error _ => simp
+        | ok patch =>
+          simp only
+          rw [applyFPs_dryRun fs cfg b entry]
+          cases Abs.applyFPs fs cfg entry patch.fps t true [] with
+          | error e => simp
+          | ok r =>
+            obtain ⟨t', ok, rejs⟩ := r
+            simp only
+            cases ok with
+            | true => simp only [if_true]; exact ih (k + 1) t'
+            | false => simp
+
+/-- the application loop of a dry run stops without error at patch `k` exactly when the loop of the real
+run does — *including* the rollback of the failing patch, which cannot abort (C04, through the refinement
+`Abs.applyLoop_sim`): this closes the `.error .panic` case `applyLoop_dry_same_final` leaves open, for a
+loop started on the empty cache -/
+theorem applyLoop_dry_real (fs : FS) (cfg : Cfg) (range : List Series.Entry) (st : St) (k : Nat)
+    (rejs : List (Bytes × Bytes)) (hd : cfg.dryRun = true)
+    (h : applyLoop fs cfg range 0 {} = .ok (st, k, rejs)) :
+    ∃ st' rejs', applyLoop fs { cfg with dryRun := false } range 0 {} = .ok (st', k, rejs') := by
+  have hsame := applyLoop_dry_same_final fs { cfg with dryRun := false } range 0 {}
+  have hcfg : ({ ({ cfg with dryRun := false } : Cfg) with dryRun := true } : Cfg) = cfg := by
+    cases cfg; simp only at hd; subst hd; rfl
+  rw [hcfg, h] at hsame
+  have hsim := Abs.applyLoop_sim fs { cfg with dryRun := false } range 0 {} [] (Abs.SameTree.refl fs _)
+    Abs.memDE_nil (fun s hs => by cases hs)
+  have hsimd := Abs.applyLoop_sim fs cfg range 0 {} [] (Abs.SameTree.refl fs _)
+    Abs.memDE_nil (fun s hs => by cases hs)
+  have hspec := applyRange_dryRun fs cfg false range 0 []
+  rw [h] at hsimd
+  cases hreal : applyLoop fs { cfg with dryRun := false } range 0 {} with
+  | ok r =>
+    obtain ⟨st', k', rejs'⟩ := r
+    rw [hreal] at hsame
+    simp only at hsame
+    subst hsame
+    exact ⟨st', rejs', rfl⟩
+  | error e =>
+    exfalso
+    rw [hreal] at hsim
+    cases hA : Abs.applyRange fs cfg range 0 [] with
+    | error e' => rw [hA] at hsimd; exact hsimd
+    | ok ra =>
+      rw [hA] at hspec
+      cases hB : Abs.applyRange fs { cfg with dryRun := false } range 0 [] with
+      | error e' => rw [hB] at hspec; exact hspec
+      | ok rb => rw [hB] at hsim; exact hsim
+
+/-- **C10 for the parallel driver**: a parallel dry run writes nothing and predicts the patch at which the
+real run stops, under EVERY pair of thread schedules.  For a world without fault injection, a
+configuration with `--dry-run`, a range all of whose patches parse (otherwise the parallel driver refuses
+up front), at least one thread, and every `schedA`, `schedS` for which the result `res` of
+`parApplyPatches` exists: either `res` is an error with the world it was given — and then the application
+loop of the real (non-dry) sequential run fails as well —, or `res = .ok (w, k)` with that same world `w`
+(same files, same inodes, no operation in the trace), the sequential dry run returns the same `(w, k)`,
+and `k` is the number of patches the application loop of the real sequential run applies before it stops
+(`C05_apply_refines`, `C06_parallel_eq_sequential_tree`: also of the real parallel run). -/
+theorem C10_parallel (w : World) (cfg : Cfg) (range : List Series.Entry) (threads : Nat)
+    (schedA schedS : List Nat) (ht : 0 < threads) (hf : w.faultAt = none) (hd : cfg.dryRun = true)
+    (patches : List (Series.Entry × List Parse.PFilePatch))
+    (hparse : Par.parseRange w.fs cfg range = some patches)
+    (res : WR (World × Nat)) (hres : Par.parApplyPatches w cfg range threads schedA schedS = some res) :
+    (∃ e, res = .error (e, w) ∧
+        ∃ e', applyLoop w.fs { cfg with dryRun := false } range 0 {} = .error e') ∨
+    (∃ k, res = .ok (w, k) ∧ applyPatches w cfg range = .ok (w, k) ∧
+        ∃ st rejs, applyLoop w.fs { cfg with dryRun := false } range 0 {} = .ok (st, k, rejs)) := by
+  obtain ⟨h1, _, h3⟩ := Par.C06_parallel_eq_sequential_tree w cfg range threads schedA schedS ht hf
+    patches hparse res hres
+  cases hloop : applyLoop w.fs cfg range 0 {} with
+  | error e =>
+    obtain ⟨_, e', he'⟩ := h1 e hloop
+    refine Or.inl ⟨e', he', ?_⟩
+    have hsame := applyLoop_dry_same_final w.fs { cfg with dryRun := false } range 0 {}
+    have hcfg : ({ ({ cfg with dryRun := false } : Cfg) with dryRun := true } : Cfg) = cfg := by
+      cases cfg; simp only at hd; subst hd; rfl
+    rw [hcfg, hloop] at hsame
+    cases hreal : applyLoop w.fs { cfg with dryRun := false } range 0 {} with
+    | ok r => rw [hreal] at hsame; exact hsame.elim
+    | error e1 => exact ⟨e1, rfl⟩
+  | ok r =>
+    obtain ⟨st, k, rejs⟩ := r
+    obtain ⟨_, _, _, hdry, _⟩ := h3 st k rejs hloop
+    obtain ⟨hr, hs⟩ := hdry hd
+    exact Or.inr ⟨k, hr, hs, applyLoop_dry_real w.fs cfg range st k rejs hd hloop⟩
+
+/-! ### non-vacuity: the two-patch push of `RQ.Par.ParEx` (`p1` fails on `b`, `p2` would apply to `a`), dry,
+two threads, worker 1 running ahead (`schedA = [1, 0, 1, 0]`) -/
+namespace DryEx
+open RQ.Par RQ.Par.ParEx
+
+def cfgDry : Cfg := { dryRun := true }
+
+theorem parse0 : (parseRange w0.fs cfgDry range0).isSome = true := by decide
+
+theorem par0 : (match parApplyPatches w0 cfgDry range0 2 schedA [] with
+    | some (.ok (_, k)) => k == 0
+    | _ => false) = true := by decide
+
+/-- the hypotheses of `C10_parallel` hold, and it is the second alternative that occurs: the world comes
+back unchanged, `0` patches are predicted, and the real sequential loop stops at patch `0` as well -/
+example : ∃ st rejs, parApplyPatches w0 cfgDry range0 2 schedA [] = some (.ok (w0, 0)) ∧
+    applyPatches w0 cfgDry range0 = .ok (w0, 0) ∧
+    applyLoop w0.fs { cfgDry with dryRun := false } range0 0 {} = .ok (st, 0, rejs) := by
+  have hp := parse0
+  have hr := par0
+  cases hparse : parseRange w0.fs cfgDry range0 with
+  | none => rw [hparse] at hp; cases hp
+  | some patches =>
+    cases hres : parApplyPatches w0 cfgDry range0 2 schedA [] with
+    | none => rw [hres] at hr; cases hr
+    | some res =>
+      rcases C10_parallel w0 cfgDry range0 2 schedA [] (by decide) rfl rfl patches hparse res hres with
+        ⟨e, he, _⟩ | ⟨k, hk, hs, st, rejs, hl⟩
+      · rw [hres, he] at hr; cases hr
+      · rw [hres, hk] at hr
+        simp only [beq_iff_eq] at hr
+        subst hr
+        exact ⟨st, rejs, by rw [hk], hs, hl⟩
+
+end DryEx
+
 #print axioms C10_no_write
 #print axioms applyLoop_dry_same_final
+#print axioms applyLoop_dry_real
+#print axioms C10_parallel
 
 end RQ.Push
